@@ -31,6 +31,23 @@ func (p *Peer) runHostile(h HostileSpec) {
 		}
 	}
 	kind := h.Kind
+	if kind == "ghost" {
+		// well-formed messages of which one gets the connection closed, followed by more of them:
+		// while the client has no metadata yet it can only queue them all (the index cannot be judged)
+		np := uint32(8)
+		if p.T != nil {
+			np = uint32(p.T.NumPieces)
+		}
+		b := EncSimple(MsgUnchoke)
+		b = append(b, EncHave(np+uint32(r.Intn(5)))...)
+		for i := uint32(0); i < np; i++ {
+			b = append(b, EncHave(i)...)
+		}
+		p.WriteRaw(b)
+		simrt.Count("fault.hostile.ghost", 1)
+		time.Sleep(r.Dur(0, 3*time.Second))
+		return
+	}
 	desync := false
 	for i := 0; i < max(1, h.N); i++ {
 		if p.IsClosed() {
@@ -194,7 +211,17 @@ func (p *Peer) randomValid() []byte {
 		}
 		return uint32(r.Uint64())
 	}
-	switch r.Intn(16) {
+	switch r.Intn(17) {
+	case 16: // the extension handshake sent again with other contents (BEP 10 allows it)
+		first := map[string]any{"v": "x"}
+		if r.Bool() {
+			first["m"] = map[string]any{}
+		}
+		second := map[string]any{"m": map[string]any{simrt.Pick(r, []string{"ut_pex", "ut_metadata", "other"}): simrt.Pick(r, []int{0, 1, 3, 200})}}
+		if r.Bool() {
+			second["metadata_size"] = simrt.Pick(r, []any{0, 1, 1 << 30})
+		}
+		return append(EncExtended(0, first, nil), EncExtended(0, second, nil)...)
 	case 0:
 		return EncSimple(simrt.Pick(r, []int{MsgChoke, MsgUnchoke, MsgInterested, MsgNotInterested, MsgHaveAll, MsgHaveNone}))
 	case 1:
